@@ -67,7 +67,7 @@ def summarise(rec):
 
 def configs(ctx):
     rng = ctx.rng
-    n = ctx.budget(30, 400)
+    n = ctx.budget(26, 400)
     out = []
     kinds = list(optrun.OPTIMISERS)
     for i in range(n):
@@ -97,6 +97,9 @@ def configs(ctx):
         out.append(optrun.lucky_few_config(rng))
     for j in range(ctx.budget(6, 30)):
         out.append(optrun.reseeding_metric_config(rng))
+    # objective values of large magnitude with small differences
+    for j in range(ctx.budget(4, 24)):
+        out.append(optrun.magnitude_config(rng))
     return out
 
 
